@@ -31,10 +31,51 @@ From RX.Spec Require Cst CstText CstEnt.
 From RX.Proofs Require Import TextMachine HoistProofs RejectProofs CstMain CstTextSem CstEntSem CstEntDoc CstEntMain CstEntCMain.
 From RX.Spec Require CstFull CstFullS4.
 From RX.Proofs Require CstNsView CstFullS4Main.
+From RX.Spec Require CstFull CstFullS4 CstFullS6.
+From RX.Proofs Require CstNsView CstFullS6Main CstFullRejSem CstFullS6Sanity KnownFindingsD15.
 Open Scope N_scope.
 
-(* ---- Proofs/CstFullS4Main.v ---- *)
+(* ---- Proofs/KnownFindingsD15.v ---- *)
 Module G0.
+Import RX.Spec.CstFull. Import RX.Spec.CstFullS4. Import RX.Spec.CstFullS6. Import RX.Proofs.CstNsView. Import RX.Proofs.CstFullS6Main. Import RX.Proofs.CstFullRejSem. Import RX.Proofs.CstFullS6Sanity. Import RX.Proofs.KnownFindingsD15.
+Theorem C07_d15_refuted :
+  exists (c1 c2 : S6.doc) (x2 : document) (pos : textpos),
+    S6.render c1 = d15_text /\ S6.render c2 = d15_inlined_text /\
+    wf_syntax6 c1 = true /\ S6.wf_doc c2 = true /\
+    nsem6 c1 = Some (S6.sem c2) /\                                                 (* the same (naively) inlined meaning *)
+    parse (S6.render c2) opt_dtd = Ok x2 /\ view (S6.render c2) x2 = Some (S6.sem c2) /\
+    parse (S6.render c1) opt_dtd = Err (InvalidAttributeValue pos) /\
+    d15_class c1 = true.
+Proof. exact d15_refuted. Qed.
+Print Assumptions C07_d15_refuted.
+
+Theorem C07_d15_outside_class :
+  forall d : S6.doc, S6.wf_doc d = true -> d15_class d = false.
+Proof. exact d15_outside_class. Qed.
+Print Assumptions C07_d15_outside_class.
+
+Theorem C07_hoist_outside_d15 :
+  forall (d1 d2 : S6.doc) opt,
+  S6.wf_doc d1 = true -> S6.wf_doc d2 = true -> allow_dtd opt = true -> S6.sem d1 = S6.sem d2 ->
+  N.of_nat (length (S6.sem d1)) < nodes_limit opt -> N.of_nat (length (S6.sem d1)) < u32_max ->
+  N.of_nat (S6.nattrs d1) < u32_max ->
+  S6.distinct_decls_le d1 (N.to_nat 65535) -> S6.distinct_decls_le d2 (N.to_nat 65535) ->
+  1 + N.of_nat (S6.ns_cost d1) <= u32_max -> 1 + N.of_nat (S6.ns_cost d2) <= u32_max ->
+  d15_class d1 = false /\ d15_class d2 = false /\
+  exists x1 x2, parse (S6.render d1) opt = Ok x1 /\ parse (S6.render d2) opt = Ok x2 /\
+                view (S6.render d1) x1 = view (S6.render d2) x2.
+Proof. exact hoist_outside_d15. Qed.
+Print Assumptions C07_hoist_outside_d15.
+
+Theorem C07_ninline_extends :
+  forall (d : S6.doc) x, S4.inline (S6.core d) = Some x -> ninline6 d = Some x.
+Proof. exact ninline_extends. Qed.
+Print Assumptions C07_ninline_extends.
+
+End G0.
+
+(* ---- Proofs/CstFullS4Main.v ---- *)
+Module G1.
 Import RX.Spec.CstFull. Import RX.Spec.CstFullS4. Import RX.Proofs.CstNsView. Import RX.Proofs.CstFullS4Main.
 Theorem C07_parse_render_sem_full_s4 :
   forall (d : S4.doc) (opt : options),
@@ -61,10 +102,10 @@ Theorem C07_hoist_insensitive_full_s4 :
 Proof. exact hoist_insensitive_full_s4. Qed.
 Print Assumptions C07_hoist_insensitive_full_s4.
 
-End G0.
+End G1.
 
 (* ---- Proofs/CstEntCMain.v ---- *)
-Module G1.
+Module G2.
 Module E := CstEnt.
 Theorem C07_parse_render_sem_ent :
   forall (c : E.doc) (opt : options),
@@ -99,7 +140,7 @@ Theorem C07_inlined_equiv :
 Proof. exact inlined_equiv. Qed.
 Print Assumptions C07_inlined_equiv.
 
-End G1.
+End G2.
 
 (* ---- Proofs/CstEntMain.v ---- *)
 Theorem C07_parse_render_sem_ent_partial :
@@ -281,7 +322,7 @@ Proof. exact attr_hoist_split_crlf. Qed.
 Print Assumptions C07_attr_hoist_split_crlf.
 
 (* ---- Proofs/RejectProofs.v ---- *)
-Module G4.
+Module G5.
 Local Notation token := Tokenizer.token.
 Theorem C07_find_entity_first :
   forall text es name e, find_entity text es name = Some e ->
@@ -302,4 +343,4 @@ Theorem C07_ok_refs_defined_first :
 Proof. exact ok_refs_defined_first. Qed.
 Print Assumptions C07_ok_refs_defined_first.
 
-End G4.
+End G5.
